@@ -187,7 +187,13 @@ func (b *builder) emitFail(w *writer, i int) []frame {
 }
 
 // stmtFail reports whether the failing operation needs statement context.
-func stmtFail(k string) bool { return k == "unpack" || k == "ulocal" || k == "for" || k == "augindex" || k == "setfield" }
+func stmtFail(k string) bool {
+	switch k {
+	case "unpack", "ulocal", "for", "augindex", "setfield", "ufree", "ucell", "ufree-lambda":
+		return true
+	}
+	return false
+}
 
 func (b *builder) emitFunction(w *writer, i int) {
 	l := b.c.Links[i]
@@ -232,6 +238,27 @@ func (b *builder) emitFunction(w *writer, i int) {
 			w.put("    x" + sp)
 			p := w.here()
 			w.put(".f = 1\n")
+			b.perFn[i] = []frame{{name: me, p: p}}
+		case "ufree":
+			// a free variable of a nested function, read before the enclosing function assigns it
+			w.put("    def inner():\n        return (" + sp)
+			pu := w.here()
+			w.put("u)\n    r = (" + sp + "inner")
+			pc := w.here()
+			w.put("())\n    u = 1\n")
+			b.perFn[i] = []frame{{name: me, p: pc}, {name: "inner", p: pu}}
+		case "ufree-lambda":
+			w.put("    g = lambda: (" + sp)
+			pu := w.here()
+			w.put("u)\n    r = [" + sp + "g")
+			pc := w.here()
+			w.put("() for _ in [0]]\n    u = 1\n")
+			b.perFn[i] = []frame{{name: me, p: pc}, {name: "lambda", p: pu}}
+		case "ucell":
+			// a local that is captured by a nested function (so it lives in a cell), read before assignment
+			w.put("    y = (" + sp)
+			p := w.here()
+			w.put("u)\n    u = 1\n    def keep():\n        return u\n")
 			b.perFn[i] = []frame{{name: me, p: p}}
 		}
 		w.put("    return x\n")
@@ -444,7 +471,7 @@ func clipSrc(s string) string {
 var subChain = vk.Register("chain", checkChain)
 
 var failKinds = []string{"binary", "unary", "index", "attr", "call", "div", "cmp", "in", "dictkey", "arity", "fail", "builtin",
-	"uglobal", "unpack", "ulocal", "for", "augindex", "setfield"}
+	"uglobal", "unpack", "ulocal", "for", "augindex", "setfield", "ufree", "ufree-lambda", "ucell"}
 var callKinds = []string{"plain", "plain", "comp", "default", "sorted", "min", "max", "cond"}
 
 func genCase(t *rapid.T, maxLines, maxCol, maxInsns int) Case {
